@@ -146,6 +146,15 @@ const TABLE: &[(&str, &str)] = &[
     ("base32hex", "By|S|Vb"),
     ("base64", "By|S|Vb"),
     ("zero85", "By|S|Vb"),
+    // values stored into the interpreter's own state variables, then a word that depends on them
+    ("! big? u16", "I01"),
+    ("! big? 258 u16!", "I01"),
+    ("! big? 16 int", "I01"),
+    ("! offset u8", "Ioff"),
+    ("! offset remain", "Ioff"),
+    ("! input u8 offset", "By2"),
+    ("! output |ff| emit output", "B"),
+    ("! output-length |ff 0| emit output-length", "Ip"),
     // printing words that honour the formatting tag: checked with tag maps that do not contain #fmt
     ("print", "A"),
     ("println", "A"),
@@ -188,6 +197,9 @@ fn gen_arg(ch: &mut Choices, code: &str) -> V {
             _ => *[i128::MAX, i128::MIN, 255, -128, 1 << 64].get(ch.below(5)).unwrap(),
         }),
         "I0" => V::Int(0),
+        "I01" => V::Int(ch.range(0, 1) as i128),
+        "Ioff" => V::Int([8, 16, 24, 40][ch.below(4)]),
+        "By2" => V::Bits(bytes_bits(&[0x12, 0x34, 0x56][..1 + ch.below(3)])),
         "I1" => V::Int([1, 2, -3, 7][ch.below(4)]),
         "I1s" => V::Int(ch.range(0, 2) as i128),
         "I2" => V::Int(2),
